@@ -369,7 +369,12 @@ class Machine:
         sol = z3.Solver(); sol.set('timeout', s.solver_timeout_ms); sol.add(*st.pc); sol.add(cond)
         t = time.time(); res = sol.check(); dt = time.time() - t
         s.stats.solver_s += dt; s.stats.queries += 1
-        if res == z3.unknown: raise Unmodelled('solver returned unknown')
+        if res == z3.unknown:
+            # a loaded machine can push a small query past the wall-clock limit: one more attempt, fresh solver, three times the limit;
+            # still unknown = inconclusive, never a pass
+            sol = z3.Solver(); sol.set('timeout', 3 * s.solver_timeout_ms); sol.add(*st.pc); sol.add(cond)
+            t = time.time(); res = sol.check(); s.stats.solver_s += time.time() - t; s.stats.queries += 1
+            if res == z3.unknown: raise Unmodelled('solver returned unknown (' + str(sol.reason_unknown()) + ')')
         r = res == z3.sat
         if r: s.stats.sat += 1
         else: s.stats.unsat += 1
